@@ -20,7 +20,7 @@ import (
 
 func main() {
 	lib.Main("C02", func(c *lib.Ctx) {
-		c.Model("From PlzV Require Import Model.Engine.", "Engine.case", "Engine.check")
+		c.Model("From PlzV Require Import Model.Engine Model.C02.", "C02.case", "C02.check")
 		c.Rule("generated repositories (1-2 packages, 2-6 targets: genrules concat/const/copydir/listnames, filegroups, text_files) with a local directory cache " +
 			"(compressed in every other history); histories of edits, frequent rm -rf plz-out (alone or together with going back to an earlier tree) and reverts, " +
 			"so that trees recur with a warm cache; every step is compared with a clean build without cache. distinct = distinct histories; " +
@@ -87,7 +87,7 @@ func main() {
 					c.Hist("edit", "witness-"+w.Name)
 					oracle(c, 1000+wi, h, k, m)
 				}
-				c.Case(e2e.EngCaseTerm(h), histJSON(1000+wi, h, len(h)-1, m), e2e.EngKey(h)+m, true)
+				c.Case(engCase(h), histJSON(1000+wi, h, len(h)-1, m), e2e.EngKey(h)+m, true)
 			}
 		}
 		for i, h := range shapes {
@@ -116,8 +116,9 @@ func main() {
 				}
 				oracle(c, 2000+i, h, k, o.Cache)
 			}
-			c.Case(e2e.EngCaseTerm(h), histJSON(2000+i, h, len(h)-1, o.Cache), e2e.EngKey(h)+o.Cache+fmt.Sprint(o.WipeAll), nontrivial)
+			c.Case(engCase(h), histJSON(2000+i, h, len(h)-1, o.Cache), e2e.EngKey(h)+o.Cache+fmt.Sprint(o.WipeAll), nontrivial)
 		}
+		memoPart(c, base)
 		for i, h := range all {
 			restored := false
 			for k := range h {
@@ -129,10 +130,13 @@ func main() {
 				}
 				oracle(c, i, h, k, mode(i))
 			}
-			c.Case(e2e.EngCaseTerm(h), histJSON(i, h, len(h)-1, mode(i)), e2e.EngKey(h)+mode(i), restored)
+			c.Case(engCase(h), histJSON(i, h, len(h)-1, mode(i)), e2e.EngKey(h)+mode(i), restored)
 		}
 	})
 }
+
+// the engine histories are one constructor of C02.case (the other: traces against the real path hasher, memo.go)
+func engCase(h []e2e.EngStep) string { return lib.App("CEng", e2e.EngCaseTerm(h)) }
 
 func contains(xs []string, x string) bool {
 	for _, y := range xs {
